@@ -71,7 +71,9 @@ def leafs(v, rng):
     for n in (3, 32, 65, 86):
         names += [bytes([n]) + b"x" * n, bytes([n]) + b"y" * (n - 1), bytes([n]) + b"z" * (n - 1) + b"\0", bytes([n + 1]) + b"w" * (n - 1) + b"\0"]
     for i, name in enumerate(names):
-        yield "hdlr_%d_%d" % (i, len(name)), full("hdlr", v.u(1), v.u(3), [F(4, 0), Raw(v.bytes(4)), Raw(b"\0" * 12), Raw(name)])
+        # hdlrc: the ISO form (UTF-8 name, one terminating NUL, none inside) — the reference rendering of a name; judged as canonical by C05
+        iso_form = name.endswith(b"\0") and b"\0" not in name[:-1]
+        yield "%s_%d_%d" % ("hdlrc" if iso_form else "hdlr", i, len(name)), full("hdlr", v.u(1), v.u(3), [F(4, 0), Raw(v.bytes(4)), Raw(b"\0" * 12), Raw(name)])
     for bits in range(32):
         flags = 0
         items = [F(4, v.u(4))]
@@ -112,6 +114,10 @@ def leafs(v, rng):
             ents += [F(4, fc), F(4, v.u(2)), F(4, v.u(4))]
             fc += 1 + v.u(1, 3)
         yield "stsc_%d" % n, full("stsc", v.u(1), v.u(3), [F(4, n)] + ents)
+    # stsc whose derived first_sample bookkeeping lands exactly on / just below / above 2^32-1 (checked u32 arithmetic in the decoder's second pass)
+    for tag, runs in (("fs_max", [(1, 0xFFFFFFFE), (2, 1)]), ("fs_max_m1", [(1, 0xFFFFFFFD), (2, 1)]), ("fs_over", [(1, 0xFFFFFFFF), (2, 1)]),
+                      ("fs_max_3", [(1, 0xFFFF), (0x10001, 0xFFFE), (0x10002, 7)]), ("fs_mul_over", [(1, 0x10000), (0x10001, 1)])):
+        yield "stsc_" + tag, full("stsc", 0, 0, [F(4, len(runs))] + [x for fc, spc in runs for x in (F(4, fc), F(4, spc), F(4, 1))])
     for ver in (0, 1):
         yield "emsg_v%d" % ver, isogen.emsg(ver, v.u(4), v.u(8 if ver else 4), v.u(4), v.u(4), b"urn:" + bytes([97 + v.u(1, 26)]), b"v", v.bytes(v.u(1, 9)))
         yield "emsg_v%d_empty" % ver, isogen.emsg(ver, v.u(4), v.u(8 if ver else 4), v.u(4), v.u(4), b"", b"", b"")
